@@ -337,6 +337,37 @@ VariablesStack::unmarkGlobalStackFrame()
 
 
 
+// Makes the current template rule null for the evaluation of a top-level
+// variable or parameter, and restores it afterwards (also when the
+// evaluation is left by an exception).
+class NullCurrentTemplatePushAndPop
+{
+public:
+
+    NullCurrentTemplatePushAndPop(StylesheetExecutionContext&   executionContext) :
+        m_executionContext(executionContext)
+    {
+        m_executionContext.pushCurrentTemplate(0);
+    }
+
+    ~NullCurrentTemplatePushAndPop()
+    {
+        m_executionContext.popCurrentTemplate();
+    }
+
+private:
+
+    // not implemented
+    NullCurrentTemplatePushAndPop(const NullCurrentTemplatePushAndPop&);
+
+    NullCurrentTemplatePushAndPop&
+    operator=(const NullCurrentTemplatePushAndPop&);
+
+    StylesheetExecutionContext&     m_executionContext;
+};
+
+
+
 const XObjectPtr
 VariablesStack::findXObject(
             const XalanQName&               name,
@@ -455,6 +486,12 @@ VariablesStack::findXObject(
                     const StylesheetExecutionContext::SetAndRestoreCopyTextNodesOnly   theSetAndRestoreCopyTextNodesOnly(
                                 executionContext,
                                 false);
+
+                    // And there is no current template rule: the rule that
+                    // happened to refer to the variable first has nothing to
+                    // do with its definition (xsl:apply-imports in it is an
+                    // error, wherever the first reference is).
+                    const NullCurrentTemplatePushAndPop     theCurrentTemplatePushAndPop(executionContext);
 
                     theNewValue = var->getValue(executionContext, doc);
                 }
